@@ -276,8 +276,79 @@ def canon_fns(raw, known):
     return ['%s -> %s' % (nw, old) for nw, old in pairs]
 
 
+def canon_modules(raw, known):
+    """Items moved into a module that does not exist on the pinned tree (`io::state`, `v3::ack`, `topic::matching`): when a
+    type of the new module has the name and the field structure of a pinned type that is gone (or a function has the name,
+    signature shape and body fingerprint of a pinned function that is gone), the whole new module prefix is mapped back to
+    the pinned one - everywhere (def paths, types, trait references), since every item below it is new."""
+    pinned_adts = known.get('adt_fields') or {}
+    sigs = known.get('sigs') or {}
+    fps = known.get('fn_fps') or {}
+    if not pinned_adts and not sigs:
+        return []
+    pinned_paths = set(pinned_adts) | set(sigs)
+    def mod_of(path):
+        return parent_of(path)[0]
+    def is_new_module(m):
+        return bool(m) and not any(q == m or q.startswith(m + '::') for q in pinned_paths)
+    cur_adts = {a['path']: a for a in raw['adts']}
+    pairs = {}
+    def norm_fields(a_fields, own):
+        return [[(n, t.replace(own, '@')) for n, t in fs] if isinstance(fs, list) else fs for fs in a_fields]
+    for p_, a in cur_adts.items():
+        if p_ in pinned_adts or not is_new_module(mod_of(p_)):
+            continue
+        name = parent_of(p_)[1]
+        def gen(t, m_):
+            return re.sub(r'(?<![A-Za-z0-9_])' + re.escape(m_) + r'::', '@::', t)
+        cur_struct = {v['name']: [(f['name'], gen(f['ty'], mod_of(p_))) for f in v['fields']] for v in a['variants']}
+        cands = []
+        for q, qv in pinned_adts.items():
+            if q in cur_adts or parent_of(q)[1] != name:
+                continue
+            old_struct = {vn: [(n, gen(t, mod_of(q))) for n, t in fs] for vn, fs in qv.items()}
+            if old_struct == cur_struct:
+                cands.append(q)
+        if len(cands) == 1:
+            pairs.setdefault(mod_of(p_), set()).add(mod_of(cands[0]))
+    tops = {b['path']: b for b in raw['bodies'] if b['kind'] != 'Promoted' and '::{closure#' not in b['path']}
+    missing = [x for x in sigs if x not in tops]
+    abstract = set(tops) | set(sigs)
+    for u, b in tops.items():
+        if u in sigs:
+            continue
+        m = mod_of(u)
+        # functions directly in a new module, or methods of a type / trait impl that lives there
+        mods = [m]
+        mm = re.match(r'^<(?:[^<>]|<[^<>]*>)* as ((?:\w+::)+)\w+', m)
+        for cand_mod in mods:
+            if not is_new_module(cand_mod):
+                continue
+            name = parent_of(u)[1]
+            c = [x for x in missing if parent_of(x)[1] == name and fps.get(x) == body_fp(b, abstract)]
+            if len(c) == 1:
+                pairs.setdefault(cand_mod, set()).add(mod_of(c[0]))
+    ren = {nm: next(iter(olds)) for nm, olds in pairs.items() if len(olds) == 1 and is_new_module(nm) and re.fullmatch(r'\w+(::\w+)*', nm) and re.fullmatch(r'\w+(::\w+)*', next(iter(olds)))}
+    if not ren:
+        return []
+    txt = json.dumps(raw)
+    for nm in sorted(ren, key=len, reverse=True):
+        txt = re.sub(r'(?<![A-Za-z0-9_])' + re.escape(nm) + r'::', lambda _m, o=ren[nm]: o + '::', txt)
+    new_raw = json.loads(txt)
+    # a relocation must not merge two different items
+    def dup_count(r):
+        ps = [b['path'] for b in r['bodies']]
+        return len(ps) - len(set(ps)), len(r['adts']) - len({a['path'] for a in r['adts']})
+    if dup_count(new_raw) != dup_count(raw):
+        return []
+    raw.clear()
+    raw.update(new_raw)
+    return ['module %s -> %s' % (k, v) for k, v in sorted(ren.items())]
+
+
 def apply(raw, known):
     out = []
+    out += canon_modules(raw, known)
     out += canon_fields(raw, known)
     out += canon_fns(raw, known)
     return out
